@@ -185,6 +185,9 @@ impl Constraint {
                 let dist_constraint =
                     Constraint::Distance(circular_arc.center, *point, arbitrary_dist);
                 dist_constraint.nonzeroes(row0, row1, row2);
+                // The radius in residual 0 is measured from the arc's start point,
+                // so residual 0 also depends on the start point.
+                row0.extend(circular_arc.start.all_variables());
                 // Residual 1 is ensuring the point is above the arc's start degrees.
                 row1.extend(circular_arc.center.all_variables());
                 row1.extend(circular_arc.start.all_variables());
@@ -1596,6 +1599,32 @@ impl Constraint {
                     row2,
                     degenerate,
                 );
+                // The target distance is the arc's radius |center - start|, which is not a constant:
+                // ∂R0/∂a = -(a - c)/|a - c|, and the center gets the opposite contribution.
+                if arc_radius >= EPSILON {
+                    let dr_dax = -(ax - cx) / arc_radius;
+                    let dr_day = -(ay - cy) / arc_radius;
+                    row0.extend([
+                        JacobianVar {
+                            id: id_ax,
+                            partial_derivative: dr_dax,
+                        },
+                        JacobianVar {
+                            id: id_ay,
+                            partial_derivative: dr_day,
+                        },
+                        JacobianVar {
+                            id: id_cx,
+                            partial_derivative: -dr_dax,
+                        },
+                        JacobianVar {
+                            id: id_cy,
+                            partial_derivative: -dr_day,
+                        },
+                    ]);
+                } else {
+                    *degenerate = true;
+                }
 
                 // Residual 1: the point should be within the arc range.
                 // Use the arc's orientation (start -> end) to decide CW/CCW.
